@@ -8,7 +8,7 @@
 #
 import re
 
-from ural.patterns import QUERY_VALUE_IN_URL_TEMPLATE
+from ural.patterns import QUERY_VALUE_IN_URL_TEMPLATE, PROTOCOL_RE
 from ural.utils import unquote, urljoin
 
 OBVIOUS_REDIRECTS_RE = re.compile(
@@ -73,7 +73,16 @@ def infer_redirection(url, recursive=True):
 
             # Basic relative url
             elif potential_target.startswith("/"):
-                target = urljoin(url, potential_target)
+                # NOTE: urljoin drops the host of an url without protocol
+                if PROTOCOL_RE.match(url):
+                    target = urljoin(url, potential_target)
+                else:
+                    target = urljoin("http://" + url, potential_target)[7:]
+
+                    # NOTE: a hint sitting in the host ("a.com&url=/x") joins
+                    # to the very same url
+                    if target == url:
+                        return url
 
             # Idiotic youtube redirections
             elif "youtube.com/redirect?" in url:
